@@ -123,12 +123,12 @@ def gen(rng, i, tier):
             "render": i % 9 == 0, "hostile": hostile, "current_scale": scale,
             # the drawn system may be the product of an edit history (registries out of node order, index gaps)
             "history": ["fresh", "identity_change_comp", "index_gaps", "solve_then_move_leaf", "solve_then_phase_conf", "solve_then_change_comp",
-                        "solve_then_retune", "solve_then_retune", "solve_then_swap_leaves", "solve_then_rename", "solve_then_phase_edit", "scratch_first_source"][i % 12]}
+                        "solve_then_retune", "solve_then_rekind", "solve_then_swap_leaves", "solve_then_rename", "solve_then_phase_edit", "scratch_first_source"][i % 12]}
 
 
-def make_config(rng, ns, spec):
+def make_config(rng, ns, spec, all_kinds=False):
     """get_conf() with random default / kind / name overrides, conflicting on the same keys."""
-    if rng.random() < 0.25:
+    if rng.random() < 0.25 and not all_kinds:
         return {}
     conf = ns.diagram.get_conf()
     keys = ["fillcolor", "shape", "penwidth", "fontcolor", "style", "color"]
@@ -139,7 +139,7 @@ def make_config(rng, ns, spec):
         for k in rng.sample(keys, 2):
             conf["node"]["default"][k] = rng.choice(vals[k])
     kinds = sorted(set(c["kind"] for c in spec["comps"]))
-    for kd in (kinds if rng.random() < 0.5 else rng.sample(kinds, min(len(kinds), rng.randint(0, 3)))):
+    for kd in (kinds if (rng.random() < 0.5 or all_kinds) else rng.sample(kinds, min(len(kinds), rng.randint(0, 3)))):
         conf["node"][kd] = {k: rng.choice(vals[k]) for k in rng.sample(keys, rng.randint(1, 3))}
     for c in rng.sample(spec["comps"], min(len(spec["comps"]), rng.randint(0, 3))):
         conf["node"][c["name"]] = {k: rng.choice(vals[k]) for k in rng.sample(keys, rng.randint(1, 3))}
@@ -215,7 +215,8 @@ def run(ctx, case):
             (ns.diagram.make_hdiag if case["heat"] else ns.diagram.make_diag)(so, fname=os.path.join(d0, "first.raw"))
 
     spec, sysobj = _rows.build_with_history(ctx, case["spec"], case.get("history", "fresh"), case["cseed"] & 0xFFFFFF, prefer=_draw_first)
-    conf = make_config(rng, ns, spec)
+    # (a system whose components changed KIND in place after a first drawing is drawn with every kind overridden)
+    conf = make_config(rng, ns, spec, all_kinds=case.get("history") == "solve_then_rekind")
     heat, grp = case["heat"], case["group"]
     fn = ns.diagram.make_hdiag if heat else ns.diagram.make_diag
     if conf and rng.random() < 0.5:
